@@ -153,6 +153,7 @@ pub fn sweep(only: &str) -> (bool, String) {
             ("[id, transports usb ble]", Some(vec![dt(&id, vec![AuthenticatorTransport::Usb, AuthenticatorTransport::Ble])]), true),
             ("[id, transports nfc]", Some(vec![dt(&id, vec![AuthenticatorTransport::Nfc])]), true),
             ("[other id]", Some(vec![d(PublicKeyCredentialType::PublicKey, &[9, 9])]), false),
+            ("[other id, transports nfc]", Some(vec![dt(&[9, 9], vec![AuthenticatorTransport::Nfc])]), false),
             ("[other id, type unknown]", Some(vec![d(PublicKeyCredentialType::Unknown, &[9, 9])]), false),
         ];
         for (lname, list, found) in lists {
@@ -190,7 +191,7 @@ pub fn sweep(only: &str) -> (bool, String) {
             }
         }
     } } } } } }
-    (false, format!("client ceremonies agree with the request in {n} registration scenarios (each followed by an excluded registration and 6 authentications)"))
+    (false, format!("client ceremonies agree with the request in {n} registration scenarios (each followed by an excluded registration and 7 authentications)"))
 }
 
 /// C09, client side: hashed and pre-hashed PRF inputs through the real `Client::authenticate`.  A pre-hashed input that is not 32 bytes
